@@ -364,6 +364,10 @@ def sem_mvl(m: Ref, mn: str, ops: List[Tuple[Any, ...]]) -> None:
                 raise Skip("pointer leaves the 1 MiB space")
             m.set(o[1], v)          # README: 'r3 updated'
     m.set("I", 0)                   # property C04 anchor: I is 0 after completion
+    if n >= 256 and (dst[0] == "imem" or src[0] == "imem"):
+        # the internal range wraps over all 256 bytes: the *set* of touched internal addresses no longer depends
+        # on the start address, only the byte order does
+        m.tags.append("I>=256: internal range covers all 256 bytes")
     if n >= 2:
         m.nt.append("block:I>=2")
     if dst[0] == "imem" and src[0] == "imem":
